@@ -18,7 +18,7 @@ from fractions import Fraction
 from . import common, pure, heapdiff
 
 PROOFS = ["proofs/SampleProofs.v", "models/Sample.v", "proofs/HeapProofs.v", "lib/Heap.v",
-          "models/SampleProb.v", "proofs/SampleProbProofs.v", "proofs/SampleProbLink.v"]
+          "models/SampleProb.v", "proofs/SampleProbProofs.v", "proofs/SampleProbPair.v", "proofs/SampleProbLink.v"]
 
 # The theorems of the second part of props/C20.v (distribution clause, ideal real-valued model)
 # are about the classical real numbers of Coq's standard library (Reals + Coquelicot).  Print
@@ -39,6 +39,8 @@ REAL_THEOREMS = [
     "c20_k1_indicator_integral", "c20_k1_indicator_is_indicator",
     "c20_ares_key_order", "c20_gumbel_key_order",
     "c20_k1_returns_winner", "c20_k1_returned_is_winner",
+    "c20_k2_probability", "c20_k2_indicator_integral", "c20_k2_indicator_is_indicator",
+    "c20_k2_marginal", "c20_k2_returns_top_pair",
 ]
 REL = 1e-9
 
@@ -410,9 +412,9 @@ def run(chk):
         "modelled: math.Log / math/rand / float64 keys abstracted to their ORDER (model input = ranks of the reference keys recomputed by the harness from the replayed rand.Seed stream)",
         "statistical: P(i) = w_i/sum(w) for sampleNum = 1 is, for the float64 IMPLEMENTATION, a fixed-seed 6-sigma frequency TEST, not a proof",
         "modelled: the distribution clause is a THEOREM only about the ideal real-valued model (models/SampleProb.v: independent draws uniform on the "
-        "open unit interval, exact keys ln u / w in R, no ties): c20_k1_probability = w_i/sum(w) and companions. Modelling assumption, not proved: the "
+        "open unit interval, exact keys ln u / w in R, no ties): c20_k1_probability = w_i/sum(w) and companions, c20_k2_probability = w_i/W * w_j/(W-w_i) for the first two picks. Modelling assumption, not proved: the "
         "probability of an event about independent uniform draws IS the iterated Riemann integral of its indicator over the unit cube "
-        "(u_i outermost; no measure theory underneath; the exchange of the integration order is proved for two items only). Not modelled: float64 "
+        "(u_i outermost, then u_j for sampleNum = 2; no measure theory underneath; the exchange of the integration order is proved for two items only). Not modelled: float64 "
         "rounding of the keys / math.Log, math/rand (2^53-point grid, can return 0), ties",
         "axioms: the theorems of the ideal model (" + ", ".join(REAL_THEOREMS) + ") depend on these standard-library axioms of the classical reals, "
         "as printed by Print Assumptions: " + ", ".join(REAL_ANALYSIS_BASE) + "; all other C20 theorems are closed under the global context",
